@@ -220,6 +220,42 @@ def check_batch_single(case):
     v2 = cs.voxel(darsia.CoordinateArray(x))
     if not np.array_equal(np.asarray(v2), batch_v):
         raise Violation("batch-form", "voxel(CoordinateArray) differs from voxel(array)", t)
+    # a batch stays a batch whatever its length: sub-batches of 1 and 2 rows are the first rows of the
+    # full batch, with the (rows, dim) shape and the array type of a batch
+    for k in (1, 2):
+        sub_c = {"array": cs.coordinate(pts[:k]), "list": cs.coordinate(pts[:k].tolist()),
+                 "VoxelArray": cs.coordinate(darsia.VoxelArray(pts[:k])),
+                 "VoxelArray.to_coordinate": darsia.VoxelArray(pts[:k]).to_coordinate(cs)}
+        for name, val in sub_c.items():
+            if not isinstance(val, darsia.CoordinateArray) or np.asarray(val).shape != (k, spec["dim"]):
+                raise Violation("small-batch-shape", f"coordinate({name} with {k} row(s)) returned "
+                                f"{type(val).__name__} of shape {np.asarray(val).shape}", t)
+            if not np.array_equal(np.asarray(val), batch_c[:k]):
+                raise Violation("small-batch-value", f"coordinate({name} with {k} row(s)) differs from the first "
+                                f"rows of the full batch", t)
+        sub_v = {"array": cs.voxel(x[:k]), "list": cs.voxel(x[:k].tolist()),
+                 "CoordinateArray": cs.voxel(darsia.CoordinateArray(x[:k])),
+                 "CoordinateArray.to_voxel": darsia.CoordinateArray(x[:k]).to_voxel(cs)}
+        for name, val in sub_v.items():
+            if not isinstance(val, darsia.VoxelArray) or np.asarray(val).shape != (k, spec["dim"]):
+                raise Violation("small-batch-shape", f"voxel({name} with {k} row(s)) returned "
+                                f"{type(val).__name__} of shape {np.asarray(val).shape}", t)
+            if not np.array_equal(np.asarray(val), batch_v[:k]):
+                raise Violation("small-batch-value", f"voxel({name} with {k} row(s)) differs from the first rows "
+                                f"of the full batch", t)
+    # the image's own voxel / coordinate tables are batches over all voxels (also for one-voxel images)
+    nvox = int(np.prod(spec["shape"]))
+    if nvox <= 4096:
+        cs2 = _setup(case)[1].coordinatesystem  # fresh object: the tables are cached on first use
+        allv, allc = cs2.voxels, cs2.coordinates
+        if (not isinstance(allv, darsia.VoxelArray) or np.asarray(allv).shape != (nvox, spec["dim"])
+                or not isinstance(allc, darsia.CoordinateArray) or np.asarray(allc).shape != (nvox, spec["dim"])):
+            raise Violation("table-shape", f"voxels/coordinates tables: {type(allv).__name__}"
+                            f"{np.asarray(allv).shape} / {type(allc).__name__}{np.asarray(allc).shape} for "
+                            f"{nvox} voxels", t)
+        want = ref.coordinate(np.asarray(allv))
+        if np.any(np.abs(np.asarray(allc) - want) > 8 * EPS * _scale(ref, np.asarray(allv))):
+            raise Violation("table-value", "coordinates table differs from the reference map of the voxels table", t)
     for i in range(len(pts)):
         for form in (pts[i].tolist(), tuple(pts[i].tolist()), pts[i], darsia.Voxel(pts[i])):
             single = cs.coordinate(form)
